@@ -24,6 +24,9 @@ RULE = (
     "items served by the source == furthest position reached by any child (each fetched once); with a lock no "
     "overlapping __anext__ of the source; no deadlock, lock free and balanced at quiescence; weakly referenced "
     "items alive <= (front - slowest live child) + children + 1; the source is closed iff every child is done. "
+    "A child that has an item waiting in its buffer (a sibling fetched it) must hand it out without suspending, even "
+    "while the sibling holds the lock inside the source. Nested configurations hand child 0, un-advanced, to a second "
+    "tee (2-3 children, own lock): the leaves are consumed concurrently. "
     "Non-trivial: real contention (a task waited for the lock or two tasks were inside the source in the same "
     "run) or an early close / cancellation while other children continued."
 )
